@@ -29,3 +29,4 @@ def run(ctx):
     # "the raw accessors re-compose to str(url)": what the printer emits for parts the splitter can produce decomposes into those parts
     from ..rules import template
     template.tpl1(ctx, parse_reachable_only=True)
+    template.acc_pq(ctx)        # raw_path_qs is raw_path + '?' + raw_query_string for every class of parts
